@@ -226,6 +226,20 @@ PROPS = {
         level_text='Every kind of per-file fault is injected in every tree and every run is checked both at the output and in the event log; schedules are sampled (the evidence lists how many distinct interleavings occurred), not enumerated.',
         level_note='Trusted: the hook events (single write(2) per line, emitted around produce/send/recv), the single-file runs as definition of "each file alone". A ThreadSanitizer build of the CLI is part of the thorough plan (DESIGN.md §4).',
     ),
+    'C18': dict(
+        engines=[('py', 'c18')],
+        cli=True,
+        technique='runtime monitoring at the process boundary: file bytes before/after vs an independent splice of the edits announced by the same command under --json; write events (hook H5)',
+        rule=('generated trees of 3-9 js/py/html/txt files (nested and repeated calls so that matches nest and overlap, html with <script>/<style>, files nobody matches) and 1-6 rules out of 8 '
+              '(two rules fixing the same span, a rule nested inside another rule\'s match, an expanding object fix, python/html/css rules, a rule without fix); mode `scan -U` in a project or '
+              '`run -p .. -r .. -U`; each project is updated twice (quick) / three times (thorough) in a row. The announcement is the same command with --json=stream on an identical copy '
+              '(`scan --json=stream -U` prints the diffs in application order without writing). Oracle per file: after == original with the accepted edits substituted, where an announced edit is '
+              'accepted unless it overlaps an earlier accepted one; files without accepted edits and all config files byte-identical; `Applied N changes` == number of accepted edits. '
+              'evaluations = update invocations. Non-trivial = distinct (file, rule set) with >= 2 accepted edits, or a dropped overlapping edit, or a file written more than once (several documents).'),
+        floor={'quick': 60, 'thorough': 2000},
+        level_text='Hundreds of update runs per quick tier with ~1000 accepted and ~800 dropped (overlapping) edits, every file compared byte for byte; held on the projects executed.',
+        level_note='Trusted: the --json announcement of the same binary as statement of intent (its positions are judged by C16), the 10-line splice.',
+    ),
 }
 
 NOT_APPLICABLE = {}
